@@ -101,7 +101,7 @@ class CayleyGraph:
 
             # Prepare encoder in case we want to encode states using few bits per element.
             if bit_encoding_width == "auto":
-                bit_encoding_width = int(math.ceil(math.log2(int(self.central_state.max()) + 1)))
+                bit_encoding_width = max(1, int(math.ceil(math.log2(int(self.central_state.max()) + 1))))
             if bit_encoding_width is not None:
                 self.string_encoder = StringEncoder(code_width=int(bit_encoding_width), n=self.definition.state_size)
                 self.encoded_generators = [
